@@ -825,8 +825,14 @@ impl Server {
                             should_close = true;
                         }
                         
-                        // Handle SYNC/PSYNC commands that need connection access
-                        if command == "SYNC" || command == "PSYNC" {
+                        // Handle SYNC/PSYNC commands that need connection access. They are served
+                        // here, ahead of the authentication gate in process_frame, so the gate has
+                        // to be applied here as well: an unauthenticated connection falls through
+                        // to process_frame and is refused like any other command.
+                        let may_sync = self.config.password.is_none() || self.connections.with_connection(id, |conn| {
+                            conn.state == ConnectionState::Authenticated
+                        }).unwrap_or(false);
+                        if may_sync && (command == "SYNC" || command == "PSYNC") {
                             sync_response = Some(self.handle_sync_command(&command, parts, id)?);
                         }
                     }
